@@ -226,7 +226,74 @@ def twins(w):
 
 def shards(tier, seed):
     n = 64 if tier == 'quick' else 1200
-    return [('tmpl', w) for w in (8, 32)] + [('slicecomp', 0)] + [('twins', w) for w in (8, 16, 32)] + [('rand', i) for i in range(n)]
+    return [('tmpl', w) for w in (8, 32)] + [('slicecomp', 0)] + [('twins', w) for w in (8, 16, 32)] + [('aff', 0)] + [('state', i) for i in range(4 if tier == 'quick' else 24)] + [('rand', i) for i in range(n)]
+
+
+STATE_BLOCKS = [['movl $0x11223344, (%esi)', 'movw %cx, (%esi)'], ['movw $0x1234, (%esi)', 'movb %cl, (%esi)'], ['movl $0x11223344, (%esi)', 'movw %cx, 2(%esi)'],
+                ['movl $0x11223344, (%esi)', 'movb %cl, 1(%esi)', 'movb %dl, 2(%esi)'], ['movl 4(%edi), %eax', 'movl %eax, (%esi)', 'movw %cx, (%esi)'],
+                ['movl $0x11223344, (%esi)', 'movb %cl, (%esi)'], ['movl $0x11223344, 4(%esi)', 'movw %cx, 6(%esi)'], ['movl $0x11223344, (%esi)', 'movb $7, 1(%esi)', 'movl (%esi), %eax'],
+                ['movl (%edi), %eax', 'movl %eax, (%esi)', 'movb %cl, 2(%esi)'], ['movb %bl, %ah', 'movl %eax, (%esi)', 'movw %cx, (%esi)'], ['pushl $0x3246', 'popfl'],
+                ['movl $0x80001234, %eax', 'movl %eax, 8(%esi)', 'movb %dl, 9(%esi)', 'movzwl 10(%esi), %ecx'], ['pushfl', 'movb %cl, (%esp)', 'popl %eax']]
+
+
+def check_aff(sh, rng):
+    """Assignments as the lifter produces them: simplifying the whole assignment must canonicalise the destination address and the
+    source exactly as simplifying them separately does, whatever the order in which the address was written."""
+    ex, mi = exprgen.M()
+    I = exprgen.Int
+    a, b, c, v = ex.ExprId('a32', 32), ex.ExprId('b32', 32), ex.ExprId('c32', 32), ex.ExprId('v32', 32)
+    addrs = [(ex.ExprOp('+', b, a), ex.ExprOp('+', a, b)), (ex.ExprOp('+', a, ex.ExprOp('-', I(4, 32))), ex.ExprOp('+', ex.ExprOp('-', I(4, 32)), a)),
+             (ex.ExprOp('+', ex.ExprOp('+', a, I(4, 32)), I(4, 32)), ex.ExprOp('+', a, I(8, 32))), (ex.ExprOp('+', c, b, a), ex.ExprOp('+', ex.ExprOp('+', a, b), c)),
+             (ex.ExprOp('+', a, ex.ExprOp('*', b, I(4, 32))), ex.ExprOp('+', ex.ExprOp('*', I(4, 32), b), a)), (ex.ExprOp('+', a, I(0, 32)), a)]
+    srcs = [v, I(7, 32), ex.ExprOp('+', b, a), ex.ExprOp('^', v, v), ex.ExprMem(ex.ExprOp('+', b, a), 32)]
+    for sz in (8, 32):
+        for a1, a2 in addrs:
+            for src in srcs:
+                s_ = src if sz == 32 else ex.ExprSlice(src, 0, 8)
+                outs = []
+                for ad in (a1, a2):
+                    e = ex.ExprAff(ex.ExprMem(ad, sz), s_)
+                    sh.case(('aff', exprgen.canon(e)), True, cls='aff:%s' % s_.__class__.__name__)
+                    try:
+                        r = simp(e)
+                        parts = (exprgen.canon(simp(ex.ExprMem(ad, sz))), exprgen.canon(simp(s_)))
+                        if (exprgen.canon(r.dst), exprgen.canon(r.src)) != parts:
+                            sh.violation('aff-parts/%s' % ('dst' if exprgen.canon(r.dst) != parts[0] else 'src'), 'expr_simp(%s) = %s, but its parts simplify to %s and %s' % (e, r, simp(ex.ExprMem(ad, sz)), simp(s_)),
+                                         {'tree': exprgen.canon(e), 'law': 'aff'})
+                        outs.append(exprgen.canon(r))
+                    except Exception as exn:
+                        sh.violation('aff-parts/raises:%s' % type(exn).__name__, 'expr_simp(%s) raised %r' % (e, exn), {'tree': exprgen.canon(e), 'law': 'aff'})
+                if len(outs) == 2 and outs[0] != outs[1]:
+                    sh.violation('ac-order/aff-destination', 'the same store written with %s and with %s simplifies to two forms' % (a1, a2), {'tree': exprgen.canon(ex.ExprAff(ex.ExprMem(a1, sz), s_)), 'law': 'aff'})
+
+
+def check_state(sh, blk, tag):
+    """After emul_lines every value of the machine state (registers and memory cells) is a fixed point of the simplifier."""
+    from miasmx.arch.ia32_arch import x86mnemo
+    from miasmx.tools import emul_helper
+    try:
+        lines = [x86mnemo.dis(x86mnemo.asm_att(l)[0]) for l in blk]
+        m = emul_helper.x86_machine()
+        emul_helper.emul_lines(m, lines)
+        items = [(k, m.pool[k]) for k in m.pool]
+    except Exception:
+        sh.counters['state_block_raises'] += 1
+        return
+    for k, v in items:
+        if not hasattr(v, 'visit'):
+            continue
+        try:
+            if irsem.typecheck(v):
+                continue
+            c = exprgen.canon(v)
+            c2 = exprgen.canon(simp(v))
+        except Exception:
+            continue
+        sh.case(('state', tag, exprgen.canon(k)), nontrivial=exprgen.count_nodes(v) > 1, cls='state:%s' % k.__class__.__name__)
+        if c2 != c:
+            from vf.checks.c05 import root_skeleton
+            sh.violation('state-not-canonical/%s/%s' % (k.__class__.__name__, root_skeleton(v)), 'after %s the state binds %s to %s, which the simplifier still rewrites to %s' % ('; '.join(blk), k, v, simp(v)),
+                         {'tree': c, 'law': 'idem', 'block': blk})
 
 
 def run_shard(shard, tier, seed):
@@ -255,6 +322,18 @@ def run_shard(shard, tier, seed):
             for op in ('+', '^'):
                 check_tree(sh, ex.ExprOp(op, b_, t), rng)
                 check_tree(sh, ex.ExprOp(op, t, a_), rng)
+        return sh
+    if shard[0] == 'aff':
+        check_aff(sh, common.rng_for(0, 'C13aff'))
+        return sh
+    if shard[0] == 'state':
+        rng = common.rng_for(seed, 'C13state', shard[1])
+        if shard[1] == 0:
+            for j, blk in enumerate(STATE_BLOCKS):
+                check_state(sh, blk, ('fixed', j))
+        for j in range(10):
+            blk = [rng.choice(ATT_LINES) for _ in range(rng.randint(2, 8))]
+            check_state(sh, blk, (seed, shard[1], j))
         return sh
     if shard[0] == 'twins':
         ex, mi = exprgen.M()
